@@ -2,6 +2,7 @@
 import re
 
 from rules.facts import norm, path_matches, origins, flows_to, call_matches, last_seg
+from rules.common import CHAIN_OK, TERMINAL_OK, failure_reaches_error, is_fallible_ty, in_expansion
 
 CONFIGS = {'quick': ['default', 'timechrono', 'controls'], 'thorough': ['allfeat']}
 TECHNIQUE = 'MIR value-range shape rules (lossy casts, unchecked arithmetic, validating-constructor bypass, error-edge discipline) over crux_time::protocol in default and chrono configurations'
@@ -53,10 +54,6 @@ def is_derive_generated(fn):
     return bool(x)
 
 
-def in_expansion(site):
-    return bool(site.get('x')) and not all(e.startswith('desugar:') for e in site['x'])
-
-
 def lossy_casts(fn):
     for bb, idx, s in fn.stmts('assign'):
         rv = s['rv']
@@ -88,60 +85,6 @@ def unchecked_arith(fn):
         c = norm(t.get('callee') or '')
         if BAD_NUM_CALL.match(c):
             yield bb, 'call %s' % c
-
-
-# sinks through which a fallible result may legitimately travel
-CHAIN_OK = ['core::option::Option::ok_or', 'core::option::Option::ok_or_else', 'core::result::Result::map_err',
-            'core::result::Result::map', 'core::option::Option::map', 'core::result::Result::and_then',
-            'core::option::Option::and_then', 'core::ops::try_trait::Try::branch',
-            'core::ops::try_trait::FromResidual::from_residual', 'core::result::Result::ok',
-            'core::option::Option::filter']
-TERMINAL_OK = ['core::option::Option::expect', 'core::option::Option::unwrap', 'core::result::Result::expect',
-               'core::result::Result::unwrap']
-
-
-def failure_reaches_error(fn, local, allow_panic, depth=0):
-    """every use of a fallible value leads to ?/ok_or/map_err/return/match (or a panic when allowed);
-    returns (ok, reason)"""
-    if depth > 8:
-        return False, 'chain too deep'
-    sinks = flows_to(fn, local, whole_only=True)
-    if not sinks:
-        return False, 'result is not used'
-    for s in sinks:
-        kind = s[0]
-        if kind == 'return':
-            continue
-        if kind in ('discr', 'switch'):
-            continue  # matched on: both variants are handled by the code that follows
-        if kind == 'field' or kind == 'op':
-            continue
-        if kind == 'callarg':
-            _, bb, t, k, via = s
-            if call_matches(t, ['core::ops::try_trait::Try::branch']) and k == 0:
-                continue  # `?`: the residual is returned by the desugaring
-            if call_matches(t, CHAIN_OK) and k == 0:
-                ok, why = failure_reaches_error(fn, t['d']['l'], allow_panic, depth + 1)
-                if not ok:
-                    return False, why
-                continue
-            if call_matches(t, TERMINAL_OK) and k == 0:
-                if allow_panic:
-                    continue
-                return False, 'failure turned into a panic by %s' % last_seg(t['callee'])
-            return False, 'fallible result passed to %s (failure not propagated)' % norm(t.get('callee') or '?')
-        if kind == 'drop':
-            # dropping the moved-from temp after a by-value call is normal; a drop with no other use is not
-            others = [x for x in sinks if x[0] != 'drop']
-            if others:
-                continue
-            return False, 'fallible result is dropped'
-        return False, 'fallible result reaches %s' % kind
-    return True, ''
-
-
-def is_fallible_ty(t):
-    return t.startswith('core::option::Option<') or t.startswith('core::result::Result<')
 
 
 NANOS_LIMIT = 1_000_000_000
